@@ -153,6 +153,63 @@ def check_C16(tier):
                            "validated by the reference receiver, fed to the library deserializer")
 
 
+# ------------------------------------------------------------------------------------------------
+# AMF0
+
+def amf_logs(wd, kind, tier, shards=4):
+    vlib.build_harness()
+
+    def gen(i):
+        path = os.path.join(wd, "amf_%s_%d.ndjson" % (kind, i))
+        p = vlib.harness(["amf", kind, i, shards, "--tier", tier, "--seed", vlib.seed(), "--out", path])
+        return path, vlib.last_json(p.stdout)
+    return vlib.parallel([(lambda i=i: gen(i)) for i in range(shards)], nproc=8)
+
+
+def amf_validate(out, logs, wd, take, tag):
+    res = vlib.parallel([(lambda pth=pth: vlib.validate_trace("Trace_Amf0.tla", pth, wd, {},
+                                                               name=tag + "_" + os.path.basename(pth).replace(".ndjson", "")))
+                         for pth, _ in logs], nproc=8)
+    for (pth, info), r in zip(logs, res):
+        out.add_trace(r, runs=info.get("runs", 0))
+        r["verdicts"] = [v for v in r["verdicts"] if v["class"] == "TOOL" or take(v)]
+        out.verdicts(r)
+
+
+AMF_ASSUME = ["Amf0.tla is a faithful reading of the AMF0 specification (checked against itself exhaustively on a small universe by MC_Amf0)",
+              "the harness logger; TLC; ndJsonDeserialize"]
+
+
+def check_C04(tier):
+    out = Outcome("C04", tier, "model_checking")
+    wd = vlib.workdir("C04")
+    r = vlib.model_check("MC_Amf0.tla", "MC_Amf0_deep.cfg" if tier == "thorough" else "MC_Amf0_quick.cfg", wd)
+    out.add_s1(r, "MC_Amf0 (reference Enc/Dec round trip, small universe, exhaustive)")
+    logs = amf_logs(wd, "enc", tier)
+    # RT = decode(encode(v)) = v; ENC "cannot express" = encoding succeeded with bytes that cannot decode to v
+    amf_validate(out, logs, wd, lambda v: v["class"] == "RT" or (v["class"] == "ENC" and "cannot express" in v["why"]), "c04")
+    sample_events(out, logs[0][0], ("Enc",))
+    out.assumptions = AMF_ASSUME
+    return out.finish(rule="library serialize then library deserialize over directed boundary values (all special f64 bit "
+                           "patterns, string/name lengths 0..70000, nesting to 16, 0/1/n-element containers) and seeded "
+                           "random value sequences; compared by value in TLA+ (numbers bitwise, objects as maps)")
+
+
+def check_C12(tier):
+    out = Outcome("C12", tier, "model_checking")
+    wd = vlib.workdir("C12")
+    r = vlib.model_check("MC_Amf0.tla", "MC_Amf0_deep.cfg" if tier == "thorough" else "MC_Amf0_quick.cfg", wd)
+    out.add_s1(r, "MC_Amf0")
+    logs = amf_logs(wd, "enc", tier) + amf_logs(wd, "dec", tier)
+    amf_validate(out, logs, wd, lambda v: v["class"] in ("ENC", "DEC"), "c12")
+    sample_events(out, logs[-1][0], ("Dec",), n=3)
+    out.assumptions = AMF_ASSUME
+    return out.finish(rule="encoder direction: the TLA+ reference decoder must read the library's bytes back as the value; "
+                           "decoder direction: harness-made reference encodings (all property orders, ECMA arrays with any "
+                           "count, every boolean byte, all 256 markers at three positions, every truncation point) must "
+                           "decode to what the reference decoder says / be rejected / satisfy TruncRel")
+
+
 def replay(path):
     with open(path) as f:
         body = json.load(f)
